@@ -187,40 +187,22 @@ theorem sched_spacing_partial (maxQ last : Int) (ws : List (Int × Req)) (s : Li
     (hst : ((Cfg.start maxQ last ws).runSched s).stale = false) :
     Spaced last ((Cfg.start maxQ last ws).runSched s).log ∧
     ((Cfg.start maxQ last ws).runSched s).last = latest last ((Cfg.start maxQ last ws).runSched s).log := by
-  refine good_final last _ ?_ (runSched_all_done _ s)
-  have h0 : AllOk (Cfg.start maxQ last ws) := by
-    intro t ht
-    simp only [Cfg.start, List.mem_map] at ht
-    obtain ⟨e, _, rfl⟩ := ht
-    exact thOk_init _ _ _
-  have hp : pend (Cfg.start maxQ last ws).ths = 0 := by
-    apply pend_zero_of_rbCount
-    simp only [rbCount, Cfg.start, List.length_eq_zero_iff, List.filter_eq_nil_iff, List.mem_map]
-    rintro t ⟨e, _, rfl⟩
-    obtain ⟨now, q⟩ := e
-    cases q <;> simp [Th.init, Th.isRb]
-  have hg : Good last (Cfg.start maxQ last ws) := by
-    refine ⟨by simp [Cfg.start, Spaced], ?_⟩
-    rw [hp]; simp [Cfg.start, latest]
-  -- six nested runs: the schedule and five drain rounds
-  unfold Cfg.runSched Cfg.round at hrb hst ⊢
-  have step : ∀ (c : Cfg) (s : List Nat), AllOk c ∧ Good last c → (c.run s).rb = false → (c.run s).stale = false →
-      AllOk (c.run s) ∧ Good last (c.run s) :=
-    fun c s h h1 h2 => ⟨allOk_run c s h.1, good_run last c s h.1 h.2 h1 h2⟩
-  have m := fun (c : Cfg) (s : List Nat) => run_flags_mono c s
-  have r5rb := hrb; have r5st := hst
-  have r4rb := (m _ _).1 r5rb; have r4st := (m _ _).2 r5st
-  have r3rb := (m _ _).1 r4rb; have r3st := (m _ _).2 r4st
-  have r2rb := (m _ _).1 r3rb; have r2st := (m _ _).2 r3st
-  have r1rb := (m _ _).1 r2rb; have r1st := (m _ _).2 r2st
-  have r0rb := (m _ _).1 r1rb; have r0st := (m _ _).2 r1st
-  have g0 := step _ s ⟨h0, hg⟩ r0rb r0st
-  have g1 := step _ _ g0 r1rb r1st
-  have g2 := step _ _ g1 r2rb r2st
-  have g3 := step _ _ g2 r3rb r3st
-  have g4 := step _ _ g3 r4rb r4st
-  have g5 := step _ _ g4 r5rb r5st
-  exact g5.2
+  exact good_final last _ (clean_final maxQ last ws s hrb hst).1 (runSched_all_done _ s)
+
+/-- **Reject only if, under schedules outside the classified regions**: every rejection decided on the shared timestamp
+    (`Cfg.rej` records the caller's clock, its interval and the admission log of that moment, a prefix of the final log)
+    was decided because honouring the spacing after the latest pass time *of that moment* would have exceeded the limit. -/
+theorem sched_reject_only_if_partial (maxQ last : Int) (ws : List (Int × Req)) (s : List Nat)
+    (hrb : ((Cfg.start maxQ last ws).runSched s).rb = false)
+    (hst : ((Cfg.start maxQ last ws).runSched s).stale = false) :
+    ∀ e ∈ ((Cfg.start maxQ last ws).runSched s).rej,
+      e.2.2 <+: ((Cfg.start maxQ last ws).runSched s).log ∧ latest last e.2.2 + e.2.1 - e.1 > maxQ := by
+  have h := (clean_final maxQ last ws s hrb hst).2
+  unfold RejOk at h
+  have hm : ((Cfg.start maxQ last ws).runSched s).maxQ = maxQ := by
+    simp [Cfg.runSched, Cfg.round, run_maxQ, Cfg.start]
+  rw [hm] at h
+  exact h
 
 /-- every admitted caller that consumes capacity (interval ≠ 0) is recorded in the admission log -/
 theorem sched_logged (maxQ last : Int) (ws : List (Int × Req)) (s : List Nat) :
